@@ -5,6 +5,7 @@ from ..census import leaves_of
 
 @register('values')
 class Values:
+    previous = None
     def __init__(self, ctx):
         self.ctx = ctx
         self.m = ctx.model
@@ -23,6 +24,15 @@ class Values:
         self.value_changes = 0
         self.checked_poke = False
         self.batches_poked = set()
+        # a System that was built (and run) earlier in this process still reports ITS OWN net value
+        prev = Values.previous
+        if prev is not None:
+            psys, pwant = prev
+            got = psys.get_net_value_of_assets()
+            if got != pwant:
+                ctx.report('net_value', f'after a newer System was created, the earlier System reports a net value of '
+                           f'{got!r}; the sum over its own registered assets is {pwant!r}')
+            ctx.count('earlier_system_net_value_checks')
 
     def check_history(self, name, obj, initial, now):
         h = obj.value_history
@@ -146,6 +156,10 @@ class Values:
             if not self.check_history(a.name, a, a._initial_value, now):
                 return
         ctx.count('net_value_checks')
+
+    def on_end(self):
+        m = self.m
+        Values.previous = (m.system, sum(a.value for a in m.system.find_assets() if hasattr(a, 'value')))
 
     def features(self):
         return {'distinct_part_values': len(self.part_values)}
